@@ -60,6 +60,12 @@ def gen_callable(rng):
         exec(mtext, ns2)
         cls = type('V', (), {'meth': ns2['meth'], '__call__': ns2['meth']})
         inst = cls()
+        if kind == 'instance' and rng.random() < 0.5:
+            # a callable object that merely HAS data attributes with the names a functools.partial uses
+            # (a command object keeping its argument list): it is not a partial
+            inst.args = tuple(rng.choice(kc.VALUES) for _ in range(rng.randint(1, 2)))
+            if rng.random() < 0.3:
+                inst.keywords = {'e': 1}
         obj = inst.meth if kind == 'method' else inst
         text = ('bound ' if kind == 'method' else 'instance ') + mtext.split('\n')[0]
     model_sig = sig if kind == 'plain' else None
